@@ -104,27 +104,34 @@ def min_cost_flow[Node](
     demand: int,
 ) -> Result:
     """Route demand units from source to sink at minimum total cost."""
-    capacity = defaultdict(lambda: defaultdict(int))
-    cost = defaultdict(lambda: defaultdict(lambda: float("inf")))
+    # Residual network: every input arc gets its own forward/backward pair (indices a, a ^ 1), so
+    # parallel arcs keep their own costs and anti-parallel arcs never share a residual
     nodes = set()
+    head: list[Node] = []
+    residual: list[int] = []
+    arc_cost: list[float] = []
+    out_arcs: dict[Node, list[int]] = defaultdict(list)
 
     for u in graph:
         nodes.add(u)
         for v, cap, c in graph[u]:
             nodes.add(v)
-            capacity[u][v] += cap
-            cost[u][v] = min(cost[u][v], c)
-            if cost[v][u] == float("inf"):
-                cost[v][u] = -c
+            out_arcs[u].append(len(head))
+            head.append(v)
+            residual.append(cap)
+            arc_cost.append(c)
+            out_arcs[v].append(len(head))
+            head.append(u)
+            residual.append(0)
+            arc_cost.append(-c)
 
-    flow = defaultdict(lambda: defaultdict(int))
     total_cost = 0
     total_flow = 0
     iterations = 0
 
     def bellman_ford():
         dist = {n: float("inf") for n in nodes}
-        parent = {n: None for n in nodes}
+        parent_arc: dict[Node, int] = {}
         dist[source] = 0
 
         for _ in range(len(nodes) - 1):
@@ -132,23 +139,24 @@ def min_cost_flow[Node](
             for u in nodes:
                 if dist[u] == float("inf"):
                     continue
-                for v in nodes:
-                    residual = capacity[u][v] - flow[u][v] + flow[v][u]
-                    if residual > 0 and dist[u] + cost[u][v] < dist[v]:
-                        dist[v] = dist[u] + cost[u][v]
-                        parent[v] = u
+                for a in out_arcs[u]:
+                    v = head[a]
+                    if residual[a] > 0 and dist[u] + arc_cost[a] < dist[v]:
+                        dist[v] = dist[u] + arc_cost[a]
+                        parent_arc[v] = a
                         updated = True
             if not updated:
                 break
 
-        if dist[sink] == float("inf"):
+        if dist.get(sink, float("inf")) == float("inf"):
             return None, float("inf")
 
         path = []
         node = sink
-        while node is not None:
-            path.append(node)
-            node = parent[node]
+        while node != source:
+            a = parent_arc[node]
+            path.append(a)
+            node = head[a ^ 1]
         path.reverse()
 
         return path, dist[sink]
@@ -160,24 +168,22 @@ def min_cost_flow[Node](
             return Result({}, float("inf"), iterations, iterations, Status.INFEASIBLE)
 
         path_flow = demand - total_flow
-        for u, v in zip(path, path[1:]):
-            residual = capacity[u][v] - flow[u][v] + flow[v][u]
-            path_flow = min(path_flow, residual)
+        for a in path:
+            path_flow = min(path_flow, residual[a])
 
-        for u, v in zip(path, path[1:]):
-            if flow[v][u] > 0:
-                reduce = min(path_flow, flow[v][u])
-                flow[v][u] -= reduce
-                remaining = path_flow - reduce
-                flow[u][v] += remaining
-                total_cost += cost[u][v] * remaining - cost[v][u] * reduce
-            else:
-                flow[u][v] += path_flow
-                total_cost += cost[u][v] * path_flow
+        for a in path:
+            residual[a] -= path_flow
+            residual[a ^ 1] += path_flow
+            total_cost += arc_cost[a] * path_flow
 
         total_flow += path_flow
 
-    flows = {(u, v): flow[u][v] for u in flow for v in flow[u] if flow[u][v] > 0}
+    # Flow on an input arc = what accumulated on its backward arc; parallel arcs are pooled
+    flows: dict[tuple[Node, Node], int] = {}
+    for a in range(0, len(head), 2):
+        if residual[a ^ 1] > 0:
+            key = (head[a ^ 1], head[a])
+            flows[key] = flows.get(key, 0) + residual[a ^ 1]
     return Result(flows, total_cost, iterations, iterations)
 
 
